@@ -4,7 +4,7 @@
 From DV Require Import Base.Prelude Model.NameM Model.MessageM.
 From DV Require Import Proofs.NameOrder Proofs.NameValid Proofs.NameRel Proofs.NameWire Proofs.NameCompress.
 From DV Require Import Proofs.MessageName Proofs.MessageRender Proofs.MessageRead Proofs.MessageRoundtrip Proofs.MessageRoundtrip2.
-From DV Require Import Proofs.MessageSize Proofs.MessagePad Proofs.MessageTrunc Proofs.MessageRoundtrip3 Proofs.MessageTruncParse Proofs.MessageUpdate.
+From DV Require Import Proofs.MessageSize Proofs.MessagePad Proofs.MessageTrunc Proofs.MessageRoundtrip3 Proofs.MessageTruncParse Proofs.MessageUpdate Proofs.MessageRerender.
 Open Scope Z_scope.
 
 (* ---------- max_size = 0, request_payload, the clamp ---------- *)
@@ -799,4 +799,190 @@ Proof.
       - cbn [negb] in HE. pose proof (rr_em_nc _ _ _ _ _ _ _ _ _ _ HE Akn) as HE'. rewrite HE0 in HE'. injection HE' as <-. lia.
       - cbn [negb] in HE. exact (rr_em_compress_le _ _ _ _ _ _ _ _ _ _ _ KL5' Akn HE HE0). }
     lia.
+Qed.
+
+(* ---------- the same run with other limit, reserve and padded flag ---------- *)
+Definition wg (a : rst) (x v : Z) (p : bool) : rst :=
+  mkRst (out a) (tbl a) (cq a) (can a) (cau a) (cad a) (rsec a) (rflags a) x v p.
+
+Lemma tracked_wg E sec n a a' x v p :
+  tracked E sec n a = Ok (false, a') -> zlen (out a') <= x ->
+  tracked E sec n (wg a x v p) = Ok (false, wg a' x v p).
+Proof.
+  unfold tracked. intros H Hx. apply bind_ok in H. destruct H as (r1 & S & H).
+  assert (S' : set_section sec (wg a x v p) = Ok (wg r1 x v p) /\ out r1 = out a /\ tbl r1 = tbl a).
+  { unfold set_section in *. cbn [rsec wg]. destruct (rsec a =? sec); [injection S as <-; auto|].
+    destruct (rsec a >? sec); [discriminate|]. injection S as <-. auto. }
+  destruct S' as (S' & O1 & T1). rewrite S'. cbn [bind]. cbn [out tbl wg].
+  apply bind_ok in H. destruct H as ([em t'] & HE & H). cbn [fst snd] in H. rewrite HE. cbn [bind fst snd].
+  unfold track_end in *. unfold wg. cbn [out maxsz set_out] in *.
+  destruct (zlen (out r1 ++ em) >? maxsz r1); [discriminate|]. injection H as <-.
+  cbn [out inc_count set_out] in Hx. destruct (Z.gtb_spec (zlen (out r1 ++ em)) x); [lia|]. reflexivity.
+Qed.
+
+Lemma add_rrsets_wg o sec x v p : forall l a a',
+  add_rrsets o sec l a = Ok (false, a') -> zlen (out a') <= x ->
+  add_rrsets o sec l (wg a x v p) = Ok (false, wg a' x v p).
+Proof.
+  induction l as [|rs l IH]; intros a a' H Hx.
+  - injection H as <-. reflexivity.
+  - cbn [add_rrsets] in *. apply bind_ok in H. destruct H as ([b1 a1] & H1 & H). cbn [fst snd] in H.
+    destruct b1; [discriminate|]. rewrite add_rrset_tracked in *.
+    destruct (add_rrsets_wm o sec l a1 a' 0 H) as (_ & M2 & _).
+    rewrite (tracked_wg _ _ _ _ _ x v p H1) by lia. cbn [bind fst snd]. apply IH; assumption.
+Qed.
+
+Lemma add_questions_wg o x v p : forall l a a',
+  add_questions o l a = Ok (false, a') -> zlen (out a') <= x ->
+  add_questions o l (wg a x v p) = Ok (false, wg a' x v p).
+Proof.
+  induction l as [|rs l IH]; intros a a' H Hx.
+  - injection H as <-. reflexivity.
+  - cbn [add_questions] in *. apply bind_ok in H. destruct H as ([b1 a1] & H1 & H). cbn [fst snd] in H.
+    destruct b1; [discriminate|]. rewrite add_question_tracked in *.
+    destruct (add_questions_wm o l a1 a' 0 H) as (_ & M2 & _).
+    rewrite (tracked_wg _ _ _ _ _ x v p H1) by lia. cbn [bind fst snd]. apply IH; assumption.
+Qed.
+
+Lemma write_header_wg id a a' x v p : write_header id a = Ok a' -> write_header id (wg a x v p) = Ok (wg a' x v p).
+Proof.
+  unfold write_header. cbn [wg rflags cq can cau cad out tbl].
+  destruct (pack16 id); cbn [bind]; try discriminate.
+  destruct (pack16 (rflags a)); cbn [bind]; try discriminate.
+  destruct (pack16 (cq a)); cbn [bind]; try discriminate.
+  destruct (pack16 (can a)); cbn [bind]; try discriminate.
+  destruct (pack16 (cau a)); cbn [bind]; try discriminate.
+  destruct (pack16 (cad a)); cbn [bind]; try discriminate.
+  intros H. injection H as <-. reflexivity.
+Qed.
+
+(* ---------- a padded, unsigned rendering is the unpadded rendering of the message with the padding option ---------- *)
+Theorem padded_explicit_lemma m o ms rp pad w o1 :
+  mtsig m = None -> mopt m = Some o1 -> to_wire m o ms rp false pad = Ok w ->
+  exists sz, to_wire (set_opt m (pad_opt o1 pad sz)) o ms rp false 0 = Ok w.
+Proof.
+  intros NT EO H. pose proof (eff_limit_range ms rp) as He. set (e := eff_limit ms rp) in *.
+  unfold to_wire in H. apply bind_ok in H. destruct H as (r & HR & H). injection H as <-.
+  rewrite to_wire_st_body4 in HR. fold e in HR.
+  apply bind_ok in HR. destruct HR as ([tr s4] & B4 & FIN). cbn [fst snd] in FIN.
+  destruct (body4_KL _ _ _ _ _ _ (proj1 He) B4) as (KL4 & TB4).
+  set (oresP := compute_opt_reserve m pad) in *.
+  (* the stages of the padded run *)
+  unfold body4 in B4. fold oresP in B4.
+  set (r0 := mkRst (repeat 0 12) [] 0 0 0 0 0 (mflags m) e 0 false) in *.
+  apply bind_ok in B4. destruct B4 as (r1 & R1 & B4).
+  apply bind_ok in B4. destruct B4 as (tr' & TR & B4).
+  assert (tr' = 0) by (unfold compute_tsig_reserve in TR; rewrite NT in TR; congruence). subst tr'.
+  apply bind_ok in B4. destruct B4 as (r2 & R2 & B4).
+  apply bind_ok in B4. destruct B4 as ([b1 s1] & S1 & B4). cbn [fst snd] in B4.
+  apply bind_ok in B4. destruct B4 as ([b2 s2] & S2 & B4). cbn [fst snd] in B4.
+  apply bind_ok in B4. destruct B4 as ([b3 s3] & S3 & B4). cbn [fst snd] in B4.
+  apply bind_ok in B4. destruct B4 as ([b4 s4'] & S4 & B4). cbn [fst snd] in B4.
+  destruct b4; [discriminate|]. injection B4 as <- ->.
+  destruct b3; [injection S4 as ?; discriminate|]. destruct b2; [injection S3 as ?; discriminate|].
+  destruct b1; [injection S2 as ?; discriminate|].
+  destruct (reserve_le _ _ _ R1) as (B1 & M1). destruct (reserve_le _ _ _ R2) as (B2 & M2). cbn [maxsz r0] in B1, M1.
+  assert (E1 : r1 = set_limits r0 (e - oresP) oresP).
+  { unfold reserve in R1. destruct (oresP <? 0); [discriminate|]. destruct (oresP >? maxsz r0); [discriminate|].
+    injection R1 as <-. cbn [maxsz reserved r0]. f_equal. }
+  assert (E2 : r2 = set_limits r1 (maxsz r1) (reserved r1)).
+  { unfold reserve in R2. destruct (0 <? 0); [discriminate|]. destruct (0 >? maxsz r1); [discriminate|].
+    injection R2 as <-. f_equal; lia. }
+  destruct (add_questions_wm o _ _ _ 0 S1) as (W1 & G1 & _).
+  destruct (add_rrsets_wm o 1 _ _ _ 0 S2) as (W2 & G2 & _).
+  destruct (add_rrsets_wm o 2 _ _ _ 0 S3) as (W3 & G3 & _).
+  destruct (add_rrsets_wm o 3 _ _ _ 0 S4) as (W4 & G4 & _).
+  (* the rest of the padded run *)
+  unfold finish in FIN. rewrite NT, EO in FIN. set (r4 := release_reserved s4) in *.
+  apply bind_ok in FIN. destruct FIN as (r5 & R5 & FIN). apply bind_ok in FIN. destruct FIN as (r6 & R6 & FIN).
+  injection FIN as <-.
+  apply bind_ok in R5. destruct R5 as ([b5 s5] & A5 & R5). unfold raise_if_big in R5. cbn [fst snd] in R5.
+  destruct b5; [discriminate|]. injection R5 as <-.
+  rewrite add_opt_pad in A5.
+  set (sz := zlen (out r4) + oresP + 0) in *. set (o2 := pad_opt o1 pad sz) in *.
+  exists sz. fold o2. set (m2 := set_opt m o2).
+  unfold add_opt in A5. cbn [Z.eqb] in A5. apply bind_ok in A5. destruct A5 as (rs & HRS & A5).
+  rewrite add_rrset_tracked in A5.
+  destruct (pad_st_fields r4 pad) as (Po & Pt & _ & _ & _ & _ & _ & _ & _).
+  assert (TB4p : TblBelow (pad_st r4 pad)) by (unfold TblBelow; rewrite Po, Pt; exact TB4).
+  assert (KL4p : KeysLong (tbl (pad_st r4 pad))) by (rewrite Pt; exact KL4).
+  destruct (tracked_spec _ _ _ _ _ _ (ext_rrset_em _ _ _) TB4p A5) as (_ & emo & new & HE & _ & [(_ & Hfit & Es5)|(Hb & _)]);
+    [|discriminate].
+  pose proof (opt_em_len _ _ _ _ _ _ _ KL4p HRS HE) as Lo.
+  set (oresQ := compute_opt_reserve m2 0).
+  assert (EQ : oresQ = zlen emo).
+  { unfold oresQ. rewrite opt_reserve0. unfold m2. cbn [mopt set_opt]. lia. }
+  assert (MX4 : maxsz (pad_st r4 pad) = e /\ maxsz s4 + reserved s4 = e /\ padded s4 = false).
+  { assert (maxsz s4 = maxsz r2 /\ reserved s4 = reserved r2 /\ padded s4 = padded r2).
+    { assert (I2 : SInv e r2).
+      { subst r2 r1. unfold SInv, TblBelow. cbn [out tbl maxsz reserved set_limits r0]. change (zlen (repeat 0 12)) with 12.
+        repeat split; try lia. constructor. }
+      destruct (add_questions_SInv _ _ _ _ _ _ I2 S1) as (J1 & X1 & Y1 & _).
+      destruct (add_rrsets_SInv _ _ _ _ _ _ _ J1 S2) as (J2 & X2 & Y2 & _).
+      destruct (add_rrsets_SInv _ _ _ _ _ _ _ J2 S3) as (J3 & X3 & Y3 & _).
+      destruct (add_rrsets_SInv _ _ _ _ _ _ _ J3 S4) as (J4 & X4 & Y4 & _).
+      split; [congruence|]. split; [congruence|congruence]. }
+    destruct H as (A & B & C). subst r2 r1. cbn [maxsz reserved padded set_limits r0] in *.
+    split; [|split; [lia|congruence]].
+    unfold pad_st. destruct (pad =? 0); unfold r4, release_reserved; cbn [maxsz set_limits set_padded]; lia. }
+  destruct MX4 as (MXp & MS4 & PS4).
+  rewrite Po, MXp in Hfit.
+  assert (O12 : zlen (out r2) = 12) by (subst r2 r1; reflexivity).
+  assert (Hs4 : 12 <= zlen (out s4)) by lia.
+  change (out r4) with (out s4) in Hfit.
+  (* the unpadded run on the message with the padding option *)
+  unfold to_wire. rewrite to_wire_st_body4. fold e.
+  assert (B4Q : body4 m2 o e 0 = Ok (0, wg s4 (e - oresQ) oresQ false)).
+  { unfold body4. fold oresQ. change (mflags m2) with (mflags m). fold r0.
+    pose proof (zlen_nn emo).
+    assert (R1Q : reserve oresQ r0 = Ok (set_limits r0 (e - oresQ) oresQ)).
+    { unfold reserve. destruct (Z.ltb_spec oresQ 0); [lia|]. cbn [maxsz reserved r0].
+      destruct (Z.gtb_spec oresQ e); [lia|]. f_equal; try lia. }
+    rewrite R1Q. cbn [bind].
+    assert (TRQ : compute_tsig_reserve m2 = Ok 0) by (unfold compute_tsig_reserve; change (mtsig m2) with (mtsig m); rewrite NT; reflexivity).
+    rewrite TRQ. cbn [bind].
+    assert (R2Q : reserve 0 (set_limits r0 (e - oresQ) oresQ) = Ok (wg r2 (e - oresQ) oresQ false)).
+    { unfold reserve. cbn [Z.ltb maxsz reserved set_limits]. destruct (Z.gtb_spec 0 (e - oresQ)); [lia|].
+      subst r2 r1. unfold wg. cbn [out tbl cq can cau cad rsec rflags set_limits r0]. change (0 <? 0) with false. cbv iota.
+      unfold set_limits. cbn [out tbl cq can cau cad rsec rflags padded r0]. f_equal. f_equal; lia. }
+    rewrite R2Q. cbn [bind]. change (mq m2) with (mq m). change (man m2) with (man m). change (mau m2) with (mau m).
+    change (mad m2) with (mad m).
+    rewrite (add_questions_wg o _ _ _ _ _ _ S1) by lia. cbn [bind fst snd].
+    rewrite (add_rrsets_wg o 1 _ _ _ _ _ _ S2) by lia. cbn [bind fst snd].
+    rewrite (add_rrsets_wg o 2 _ _ _ _ _ _ S3) by lia. cbn [bind fst snd].
+    rewrite (add_rrsets_wg o 3 _ _ _ _ _ _ S4) by lia. reflexivity. }
+  rewrite B4Q. cbn [bind fst snd]. unfold finish. change (mtsig m2) with (mtsig m). rewrite NT.
+  change (mopt m2) with (Some o2). change (mid m2) with (mid m).
+  assert (R4Q : release_reserved (wg s4 (e - oresQ) oresQ false) = wg (pad_st r4 pad) e 0 false).
+  { unfold release_reserved, wg, pad_st, r4. destruct (pad =? 0);
+      cbn [out tbl cq can cau cad rsec rflags maxsz reserved set_limits set_padded release_reserved];
+      unfold set_limits; cbn [out tbl cq can cau cad rsec rflags padded]; f_equal; lia. }
+  rewrite R4Q. unfold add_opt. cbn [Z.eqb]. rewrite HRS. cbn [bind]. rewrite add_rrset_tracked.
+  assert (Ls5 : zlen (out s5) <= e).
+  { rewrite Es5. cbn [out inc_count set_out]. rewrite Po, zlen_app'. change (out r4) with (out s4). lia. }
+  rewrite (tracked_wg _ _ _ _ _ e 0 false A5 Ls5). cbn [bind fst snd]. unfold raise_if_big. cbn [fst snd bind].
+  rewrite (write_header_wg _ _ _ e 0 false R6). reflexivity.
+Qed.
+
+Lemma to_wire_nopt m o ms rp pf pad : mopt m = None -> to_wire m o ms rp pf pad = to_wire m o ms rp pf 0.
+Proof. intros H. unfold to_wire, to_wire_st, compute_opt_reserve. rewrite H. reflexivity. Qed.
+
+(* a padded rendering of an unsigned message: the parsed message (which carries the padding option) renders,
+   without padding, to the same octets *)
+Theorem rerender_identical_padded_lemma o pad m ms rp w m' :
+  org_ok o -> WfMsg o m -> mtsig m = None ->
+  to_wire m o ms rp false pad = Ok w -> from_wire w o po0 = Ok m' ->
+  to_wire m' o ms rp false 0 = Ok w.
+Proof.
+  intros OO WF NT H HF.
+  assert (WT : forall x, mtsig x = None -> wf_tsig x) by (intros x Hx; unfold wf_tsig; rewrite Hx; exact Logic.I).
+  destruct (mopt m) as [o1|] eqn:EO.
+  - destruct (padded_explicit_lemma m o ms rp pad w o1 NT EO H) as (sz & H2).
+    set (m2 := set_opt m (pad_opt o1 pad sz)) in *.
+    assert (WF2 : WfMsg o m2).
+    { destruct WF as [W0 WQ WA WU WD KA KU KD WO]. constructor; try assumption.
+      cbn [mopt m2 set_opt]. rewrite EO in WO. destruct WO as (WO1 & WO2). split; [apply pad_opt_ok; exact WO1|exact WO2]. }
+    exact (rerender_identical_lemma o m2 ms rp w m' OO WF2 (WT m2 NT) H2 HF).
+  - rewrite (to_wire_nopt m o ms rp false pad EO) in H.
+    exact (rerender_identical_lemma o m ms rp w m' OO WF (WT m NT) H HF).
 Qed.
